@@ -313,6 +313,40 @@ Proof.
   destruct (non_canonical c (os_class o) (reason_of c o code flags nparams info0) address (oa_addresses oa)); reflexivity.
 Qed.
 
+(* ---- op_analysis.rs *)
+Lemma operand_address_src_refines : forall pc m, operand_address_src pc m = operand_address pc m.
+Proof.
+  intros pc m. unfold operand_address_src, operand_address, g_op_base_null, g_op_index_null, G_OP_INIT, G_OP_DEFAULT_SCALE, G_OP_DEFAULT_DISP.
+  destruct (mo_base m) as [b|]; cbn [option_map].
+  - destruct (get_register pc b) as [v|]; cbn [option_map]; [|reflexivity].
+    destruct (mo_index m) as [i|]; [|reflexivity].
+    destruct (get_register pc i) as [w|]; cbn [option_map]; [|reflexivity]. rewrite orb_false_r. reflexivity.
+  - destruct (mo_index m) as [i|]; [|reflexivity].
+    destruct (get_register pc i) as [w|]; cbn [option_map]; reflexivity.
+Qed.
+
+Lemma implicit_access_src_refines : forall k pc,
+  (forall v, get_register pc RSP_ID = Some v -> 0 <= v < two64) ->
+  implicit_access_src k pc = implicit_access k pc.
+Proof.
+  intros k pc H. unfold implicit_access_src, implicit_access, plain_info, g_implicit_null, G_IMPLICIT_PUSHCALL_OFF, G_IMPLICIT_POPRET_OFF.
+  destruct k; [reflexivity| |]; destruct (get_register pc RSP_ID) as [v|]; try reflexivity.
+  rewrite Z.add_0_r. unfold wrap64. rewrite Z.mod_small by (apply H; reflexivity). reflexivity.
+Qed.
+
+Lemma ip_of_src_refines : forall k pc, ip_of_src k pc = ip_of k pc.
+Proof. intros [| |id|v] pc; reflexivity. Qed.
+
+Theorem analyze_dinstr_src_refines : forall di pc,
+  (forall v, get_register pc RSP_ID = Some v -> 0 <= v < two64) ->
+  analyze_dinstr_src di pc = analyze_dinstr di pc.
+Proof.
+  intros di pc H. unfold analyze_dinstr_src, analyze_dinstr, explicit_accesses.
+  rewrite ip_of_src_refines, implicit_access_src_refines by exact H.
+  replace (map (operand_address_src pc) (di_ops di)) with (map (operand_address pc) (di_ops di)); [reflexivity|].
+  apply map_ext. intro m. symmetry. apply operand_address_src_refines.
+Qed.
+
 (* ---- the whole path from the raw records *)
 Section Dump.
   Variable analysis : pcontext -> option op_analysis.
